@@ -9,7 +9,7 @@ import pathlib
 from pbt.core import quiet
 
 
-def full_config(d, paths, cfg, out_prefix='out', csv=True, hdf5=True, log_file=True):
+def full_config(d, paths, cfg, out_prefix='out', csv=True, hdf5=True, log_file=True, json_out=True):
     d = pathlib.Path(d)
     tmp = None
     if cfg.get('tmp_dir', True):
@@ -20,7 +20,7 @@ def full_config(d, paths, cfg, out_prefix='out', csv=True, hdf5=True, log_file=T
     outdir.mkdir(exist_ok=True, parents=True)
     c = dict(
         query_path=str(paths['query']),
-        extended_result_path=str(outdir / f'{out_prefix}.json'),
+        extended_result_path=str(outdir / f'{out_prefix}.json') if json_out else None,
         hdf5_result_path=str(outdir / f'{out_prefix}.h5') if hdf5 else None,
         csv_result_path=str(outdir / f'{out_prefix}.csv') if csv else None,
         summary_metadata_path=None, obsm_key=cfg.get('obsm_key'), obsm_clobber=False,
@@ -87,8 +87,8 @@ def run(d, paths, cfg, trace=False, **kw):
             os.environ.pop('CELL_TYPE_MAPPER_VERIF_TRACE', None)
         else:
             os.environ['CELL_TYPE_MAPPER_VERIF_TRACE'] = old
-    p = pathlib.Path(c['extended_result_path'])
-    if p.exists():
+    p = pathlib.Path(c['extended_result_path']) if c['extended_result_path'] else None
+    if p is not None and p.exists():
         try:
             o.out = json.loads(p.read_text())
         except Exception:
